@@ -495,10 +495,14 @@ def divRoundLong (NewB : Nat) (m : Mode) (p : Nat) (num den : FRepr) : Rounded F
     (FRepr.new NewB (hl.1 + rInt adj) exp, some adj)
 
 /-- `Context::<R>::convert_base::<B, NewB>(repr)` at precision `p` (finite input), as of commit
-    02e179b (every branch rounds to the target precision) and bd48ef9 (a dividend longer than
+    02e179b (every branch rounds to the target precision — the same-base shortcut as REQUIRED, see below) and bd48ef9 (a dividend longer than
     `repr_div` supports is rounded once through `round_ratio`). -/
 def convertBase (W : Nat) (B NewB : Nat) (m : Mode) (p : Nat) (r : FRepr) : ConvResult :=
-  if NewB = B then .ok (r, none)
+  -- same base: what the property REQUIRES — the value rounded to the target precision like on every other
+  -- path (`repr_round`; nothing happens when the digits fit or the precision is unlimited).  The code at
+  -- fa3b7b8 returns the operand unrounded here (`with_base_and_precision::<B>(p)` with fewer digits than the
+  -- operand has): recorded finding, proposed_fixes/c08-convert-base-same-base.diff
+  if NewB = B then .ok (reprRound NewB m coarseNone p (FRepr.new NewB r.signif r.exp))
   else
     let up := if NewB > B then ilogExact NewB B else 0
     let down := if NewB > B then 0 else ilogExact B NewB
@@ -541,7 +545,10 @@ def withBasePrecisionSpec (B NewB p : Nat) : Nat :=
 def withBasePrecision (_W : Nat) (B NewB p : Nat) : Nat :=
   let down := ilogExact B NewB
   let up := ilogExact NewB B
-  if down > 1 then p * down
+  -- `precision * down` is a `usize`: a product beyond `usize::MAX` (64-bit) is REQUIRED to saturate — a precision
+  -- that large is as good as unlimited; the code at fa3b7b8 overflows (debug panic, release wrap-around to a tiny
+  -- precision): recorded finding, proposed_fixes/c08-with-base-precision-overflow.diff
+  if down > 1 then min (p * down) (2 ^ 64 - 1)
   else if up > 1 then p / up
   else withBasePrecisionSpec B NewB p
 
